@@ -97,6 +97,8 @@ def get_method_annotation(key: str, field: InstanceMethodField) -> str:
         field.method
     )
     has_ret_annotation = "return" in annotations
+    # the configuration is the first positional parameter, unless the function collects it in *args
+    takes_config_explicitly = bool(args)
     if kwonlyargs:
         if not varargs:
             args.append("*")
@@ -127,7 +129,10 @@ def get_method_annotation(key: str, field: InstanceMethodField) -> str:
     if varkw:
         items.append("**%s" % varkw)
 
-    items[0] = "self"
+    if takes_config_explicitly:
+        items[0] = "self"
+    else:
+        items.insert(0, "self")
     annotation = "def %s(%s)" % (key, ", ".join(items))
     if has_ret_annotation:
         retval = get_retval_annotation(annotations["return"])
